@@ -46,7 +46,7 @@ def make_uni(rng):
     var_defaults = (rng.randrange(4), rng.randrange(2))
     var_noreset = (rng.random() < 0.25, rng.random() < 0.25)
     sd = tuple(d if h else 0 for d, h in zip(sig_defaults, hasdef))
-    return c03.Universe(first_in=1, sig_defaults=sd, sig_hasdef=tuple(hasdef), sig_noreset=tuple(noreset),
+    return c03.Universe(first_in=0, sig_defaults=sd, sig_hasdef=tuple(hasdef), sig_noreset=tuple(noreset),
                         var_defaults=var_defaults, var_noreset=var_noreset)
 
 
@@ -97,8 +97,8 @@ def coro_source(prog, is_async, low):
 
 def run(ck: common.Check, replay=None):
     ck.check_props("C04_Properties.v")
-    n_seq = 48 if ck.tier == "quick" else 600
-    n_coro = 24 if ck.tier == "quick" else 300
+    n_seq = 28 if ck.tier == "quick" else 600
+    n_coro = 16 if ck.tier == "quick" else 300
     variants = [(a, l) for a in (False, True) for l in (False, True)]
     items = []
     for k in range(n_seq):
@@ -138,6 +138,8 @@ def run(ck: common.Check, replay=None):
                     "Definition outs (st : list Z) : list value := map (fun p => out_val (fst p) (snd p)) (combine sdecls (firstn 4 st)).")
             seq_cases.append(X.Case(name, r["vhdl"], step=f"with_reset {b(m['is_async'])} {b(m['low'])} rdecls outs (seq_step sdecls body)",
                                     init=uni.init_state(), defs=defs, mid=True,
+                                    input_inits={"rst": ("L", True)} if m["low"] else None,
+                                    alphabet_overrides={"i": "[VV KUns 2%N 0%Z; VV KUns 2%N 1%Z; VV KUns 2%N 3%Z]"} if ck.tier == "quick" else None,
                                     imports="From Cohdl Require Import Models.SeqRef Models.ResetRef.",
                                     meta={"kind": "sequential body", "async": m["is_async"], "active_low": m["low"],
                                           "on_reset": m["on_reset"], "source": src, "ref": m["ref"]}))
@@ -149,6 +151,10 @@ def run(ck: common.Check, replay=None):
                 ck.obligation(False)
                 ck.violation({"case": name}, "emitted VHDL left the parsed subset: " + str(e), {"source": src, "vhdl": r["vhdl"]}, no_input=True)
                 continue
+            if m["low"]:
+                for sd in d.sigs:
+                    if sd.dir == "in" and sd.name == "rst":
+                        sd.init = ("L", True)      # the test bench holds an active-low reset inactive at power-up
             path = os.path.join(ck.gen, name + ".v")
             with open(path, "w") as f:
                 f.write(CORO_TMPL.format(header=common.COQ_HEADER, design=R.design_to_coq(d), prog=c01.block_coq(m["prog"]),
@@ -182,5 +188,6 @@ def run(ck: common.Check, replay=None):
                       "every clock, for every duration, in every reachable state, followed by every input sequence")
     ck.trusted += ["fail-closed VHDL reader", "Vhdl.Sem (asynchronous resets observed through the mid-cycle sample)",
                    "ResetRef/CoroReset as the rendering of the reset clause; SeqRef/Coro.ref for the non-reset step"]
-    ck.assumptions += ["objects without an initial value power up as zero (two-valued model), both in the design and in the reference",
+    ck.assumptions += ["the reset input is inactive at power-up (the test bench drives an active-low reset high before the first clock)",
+                       "objects without an initial value power up as zero (two-valued model), both in the design and in the reference",
                        "designs are sampled; locally declared signals inside contexts are not generated"]
